@@ -24,6 +24,7 @@ This file is named mock_ instead of mock so that it can import the standard mock
 """
 
 import inspect
+import sys
 from unittest import mock
 
 from .decorators import asynq
@@ -146,12 +147,18 @@ def _make_patch_async(
 class _PatchAsync(_patch):
     def __enter__(self):
         mock_fn = super(_PatchAsync, self).__enter__()
-        # so we can also mock non-functions for compatibility
-        if callable(mock_fn):
-            async_fn = _AsynqWrapper(mock_fn)
-            mock_fn.asynq = async_fn
-            setattr(mock_fn, "async", async_fn)
-            mock_fn.asyncio = _AsyncioWrapper(mock_fn)
+        try:
+            # so we can also mock non-functions for compatibility
+            if callable(mock_fn):
+                async_fn = _AsynqWrapper(mock_fn)
+                mock_fn.asynq = async_fn
+                setattr(mock_fn, "async", async_fn)
+                mock_fn.asyncio = _AsyncioWrapper(mock_fn)
+        except BaseException:
+            # the target is already replaced at this point and nobody is going to call
+            # __exit__ for us: put the original back (like unittest.mock's own __enter__)
+            if not self.__exit__(*sys.exc_info()):
+                raise
         return mock_fn
 
     def copy(self):
